@@ -1208,6 +1208,7 @@ def remove_duplicate_functions(source: str, preserve: Collection[str]) -> str:
     Returns:
         str: Modified code
     """
+    original_source = source
     root = core.parse(source)
     function_defs = collections.defaultdict(set)
 
@@ -1291,6 +1292,9 @@ def remove_duplicate_functions(source: str, preserve: Collection[str]) -> str:
         }
     if delete:
         source = processing.remove_nodes(source, delete, root)
+
+    if not core.is_valid_python(source):
+        return original_source  # The renamed uses go with the removal, or not at all
 
     return source
 
